@@ -1,7 +1,7 @@
 (* Trace-level invariants of the traversal model: for EVERY schedule, graph and initial pool
    population, executions are started only by the worker a node belongs to, never for flat,
    clone-source, dry-run or root nodes. *)
-From Coq Require Import List ZArith NArith Bool Arith Lia.
+From Coq Require Import List ZArith NArith Bool Arith Lia PrimFloat.
 Import ListNotations.
 From I2N Require Import Model.Retry Model.Traverse Model.TraverseRun Proofs.TraverseProofs.
 Local Open Scope nat_scope.
@@ -412,8 +412,8 @@ Lemma AllP_init g p : AllP g (init_state g p).
 Proof.
   intros v. unfold P, wst, init_state. cbn.
   destruct (Nat.lt_ge_cases v (length (g_workers g))) as [H|H].
-  - rewrite nth_indep with (d' := mkW [g_root g] [] 0%Z Ready) by (now rewrite map_length).
-    change (mkW [g_root g] [] 0%Z Ready) with ((fun _ : worker => mkW [g_root g] [] 0%Z Ready) (mkWorker 0 true [] [])).
+  - rewrite nth_indep with (d' := mkW [g_root g] [] PrimFloat.zero Ready) by (now rewrite map_length).
+    change (mkW [g_root g] [] PrimFloat.zero Ready) with ((fun _ : worker => mkW [g_root g] [] PrimFloat.zero Ready) (mkWorker 0 true [] [])).
     rewrite map_nth. exact I.
   - rewrite nth_overflow by (now rewrite map_length). exact I.
 Qed.
